@@ -3,6 +3,7 @@ package main
 import (
 	"bytes"
 	"crypto/sha256"
+	"encoding/json"
 	"errors"
 	"fmt"
 	"go/ast"
@@ -11,6 +12,8 @@ import (
 	"go/token"
 	"os"
 	"path/filepath"
+	"sort"
+	"strings"
 	"runtime"
 	"sync"
 
@@ -145,4 +148,50 @@ func genSweep(e *emitter, prop string, tier string) {
 		c.P["lookup_source_changed"] = changed
 		e.emit(c)
 	}
+}
+
+// sourceFacts prints {relative path: SHA-256 of the printed AST (comments dropped)} for every non-test,
+// non-generated Go file of the repository: the fingerprints bin/check compares with source_pins.json to
+// know which hand-modelled files differ from the tree the model was written against.
+func sourceFacts(repo string) {
+	out := map[string]string{}
+	_ = filepath.Walk(repo, func(path string, info os.FileInfo, err error) error {
+		if err != nil {
+			return nil
+		}
+		if info.IsDir() {
+			if n := info.Name(); n == ".git" || n == "sample_models" || n == "testdata" || n == "test_data" {
+				return filepath.SkipDir
+			}
+			return nil
+		}
+		if !strings.HasSuffix(path, ".go") || strings.HasSuffix(path, "_test.go") || strings.HasSuffix(path, ".pb.go") {
+			return nil
+		}
+		rel, _ := filepath.Rel(repo, path)
+		fset := token.NewFileSet()
+		f, perr := parser.ParseFile(fset, path, nil, 0)
+		if perr != nil {
+			out[rel] = "unparsable"
+			return nil
+		}
+		var b bytes.Buffer
+		if printer.Fprint(&b, fset, f) != nil {
+			out[rel] = "unprintable"
+			return nil
+		}
+		out[rel] = fmt.Sprintf("%x", sha256.Sum256(b.Bytes()))
+		return nil
+	})
+	keys := make([]string, 0, len(out))
+	for k := range out {
+		keys = append(keys, k)
+	}
+	sort.Strings(keys)
+	ordered := make(map[string]string, len(out))
+	for _, k := range keys {
+		ordered[k] = out[k]
+	}
+	b, _ := json.MarshalIndent(ordered, "", " ")
+	fmt.Println(string(b))
 }
